@@ -91,6 +91,11 @@ CLAIMED = {
                      "iterators hold no borrow/lock across the body is checked by the correspondence: every single operation injected at every invocation index of every loop "
                      "kind on small graphs, all four flavours, RefCell panics / lock probe (guard gdsl_verif) / watchdog.",
                 tech="Coq proof: preservation lemma family for the machines under arbitrary callbacks + instrumented-log erasure + differential correspondence with scripted closures", ref="DESIGN.md §5 C20"),
+    "C15": dict(text="The model has one set of definitions per flavour class and every correspondence run compares BOTH twins with it; C15's own check runs the union of all case "
+                     "families (node histories, all searches/orderings with all options, containers, scc, serde, ownership, scripted closures, comparisons) on each plain "
+                     "flavour and its sync twin, requires both to equal the model (hence each other), and compiles one program text against each twin. The Coq content "
+                     "specific to C15 is small (coq/props/C15.v: twins_agree, Edge comparison traits); the assurance is carried by the correspondence, as DESIGN.md says.",
+                tech="differential correspondence of both twins against one Coq model (+ small Coq lemmas on Edge comparison) and a twin compile/run probe", ref="DESIGN.md §5 C15"),
 }
 
 PENDING = {
